@@ -1,28 +1,51 @@
 (* C05 — inferred types are tight: every alternative is witnessed by an observed value.
-   The full statement is C05_full (real Gallina, kept visible); proved so far: the clauses that do not
-   need the merge induction (`..._partial`).  The executable predicate tightb is evaluated on the
-   implementation's output for every generated case (Check/TightCases.v). *)
-From MT Require Import Types Infer Tight TightFacts.
+   The executable reading of the property's prose is Model/Tight.v (tightb / memt); the full statement C05_full is
+   PROVED for every limit k and every finite collection of well-formed values (Proofs/TightMerge*.v: induction on the
+   merge's fuel with one case per path of shrink_types, nested induction on values for get_type).  The same predicate
+   tightb is evaluated by vm_compute on the implementation's own output for every generated case. *)
+From MT Require Import Types Infer Tight TightFacts TightMergeShrink.
 
 Definition C05_full : Prop :=
   forall k vs t, vs <> [] -> forallb wf_valueb vs = true -> infer k vs = Some t -> tightb t vs = true.
 
+(* the full property: at every nesting position every union alternative is inhabited by an observed value, class
+   names are exact runtime classes, Any only where nothing was seen, TypedDict keys required iff present everywhere *)
+Theorem infer_tight : C05_full.
+Proof. exact infer_tight_full. Qed.
+Print Assumptions infer_tight.
+
+(* per value: the type of a single value is tight for it, and the value is an exact member of it *)
+Theorem get_type_tight :
+  forall k v t, wf_valueb v = true -> get_type k v = Some t -> tightb t [v] = true /\ memt v t = true.
+Proof. exact TightMergeShrink.get_type_tight. Qed.
+Print Assumptions get_type_tight.
+
+(* every observed value is an EXACT member (exact classes, Dict does not admit defaultdict, Any admits nothing) *)
+Theorem infer_exact_member :
+  forall k vs t v, forallb wf_valueb vs = true -> infer k vs = Some t -> In v vs -> memt v t = true.
+Proof. exact infer_memt. Qed.
+Print Assumptions infer_exact_member.
+
+(* merging (what stub generation does with the types of many traces) keeps tightness: if every input type is
+   witnessed by observed values and every observed value is covered, the merged type is tight for all of them *)
+Theorem merge_tight :
+  forall k ts t V, Forall TypesFacts.wf_ty ts -> forallb wf_valueb V = true ->
+  (forall x, In x ts -> exists ws, ws <> [] /\ incl ws V /\ tightb x ws = true) ->
+  (forall v, In v V -> exists x ws, In x ts /\ In v ws /\ incl ws V /\ tightb x ws = true) ->
+  shrink_top k ts = Some t -> tightb t V = true.
+Proof. exact shrink_top_tight_closed. Qed.
+Print Assumptions merge_tight.
+
 (* leaves: class names are the exact runtime classes; class objects, callables, generators *)
-Theorem get_type_tight_leaf_partial :
+Theorem get_type_tight_leaf :
   forall k v t, is_leaf v = true -> get_type k v = Some t -> tightb t [v] = true.
-Proof. exact get_type_tight_leaf. Qed.
-Print Assumptions get_type_tight_leaf_partial.
+Proof. exact TightFacts.get_type_tight_leaf. Qed.
+Print Assumptions get_type_tight_leaf.
 
 (* `Any` is tight for the empty collection only: wherever tightb accepts an Any, nothing was seen there *)
-Theorem any_only_where_nothing_seen_partial : forall vs, tightb TAny vs = true <-> vs = [].
+Theorem any_only_where_nothing_seen : forall vs, tightb TAny vs = true <-> vs = [].
 Proof. exact tight_any_iff. Qed.
-Print Assumptions any_only_where_nothing_seen_partial.
-
-(* tightness entails membership under the exact-class, Any-admits-nothing reading (atomic types) *)
-Theorem tight_admits_partial :
-  forall t vs v, atomic_ty t = true -> tightb t vs = true -> In v vs -> member false subN v t = true.
-Proof. exact tight_admits_atomic. Qed.
-Print Assumptions tight_admits_partial.
+Print Assumptions any_only_where_nothing_seen.
 
 Example ex_c05_nonvacuous :
   let vs := [VList [VDict [(VStr "a", VAtom cInt 1)]; VDict [(VStr "a", VAtom cInt 2); (VStr "b", VStr "x")]];
